@@ -25,9 +25,10 @@ H = math.pi / 2
 
 
 def sym(i):
+    """the circuit's symbols; 'c' carries an assumption ('any symbols': a symbol is more than its name)"""
     import sympy
 
-    return sympy.Symbol(NAMES[i])
+    return sympy.Symbol(NAMES[i], real=True) if i == 3 else sympy.Symbol(NAMES[i])
 
 
 def param(lf):
